@@ -17,7 +17,8 @@ RULE = ("Single-section tables from a pagination-oriented generator: 0-60 rows w
         "by a calibrated filler for the cell's OWN font (1-10) and size (6-24), nrow 1-50, header explicit / "
         "default(auto) / multi-row / none, footnote and source absent / table / paragraph under any placement, "
         "plain / page_by (1-3 levels, new_page on/off) / subline_by with group runs sized relative to the page "
-        "capacity (straddling and not straddling breaks); plus an exhaustive sweep header(4) x footnote(3) x "
+        "capacity (straddling and not straddling breaks), page_by values and column header labels that wrap to 2-3 "
+        "lines across the table / in their cell; plus an exhaustive sweep header(4) x footnote(3) x "
         "source(3) x strategy(3) x nrow 3..12 on 1-line rows. Oracle: per parsed page, sum of independent "
         "lower-bound line weights (PIL on the bundled font files, parsed font/size/\\cellx) of header rows, heading "
         "rows, subline heading, data rows and table footnote/source rows <= nrow, except on a page with exactly "
@@ -25,7 +26,7 @@ RULE = ("Single-section tables from a pagination-oriented generator: 0-60 rows w
         "findings listed in KNOWN_FINDINGS.txt is a violation. Non-trivial = >=2 pages and some page filled to "
         "within 1 of its budget.")
 ASSUMPTIONS = ["weight of a row = max over its cells of ceil(text width / cell width) at the parsed font and size: "
-               "a lower bound on what any RTF viewer needs", "footnote/source rows and (short-tag) header / heading rows count 1"]
+               "a lower bound on what any RTF viewer needs", "footnote/source rows count 1; header and heading rows are weighted like data rows (their labels are short tags or calibrated fillers)"]
 
 CONTRIBS = ("auto_header_unreserved", "font_ignorant_heights", "continuation_heading_unbudgeted", "nested_level_heading_unbudgeted")
 
@@ -36,6 +37,8 @@ def strategy(tier):
         pgen.pag_recipe(fonts=False, max_rows=40, nrow_range=(2, 14), levels_max=2, nulls=True, widths=True, tall_headings=True),
         pgen.pag_recipe(fonts=False, max_rows=40, nrow_range=(6, 16), levels_max=2, strategies=("page_by", "page_by_new"), pageby_rows=("column", "first_row"),
                         tall_headings=True, fn_src=False, headers=("explicit", "none")),
+        # column header labels that wrap to 2-3 lines in their own cell
+        pgen.pag_recipe(fonts=False, max_rows=40, nrow_range=(5, 16), levels_max=1, headers=("explicit", "multi"), tall_headers=True, max_height=2),
         pgen.pag_recipe(fonts=False, max_rows=30, nrow_range=(2, 12), levels_max=1, headers=("explicit", "multi", "none")),
         # tight pages: nothing reserved that is not rendered, so a single uncounted line shows up as an overflow
         pgen.pag_recipe(fonts=False, max_rows=40, nrow_range=(3, 12), levels_max=2, headers=("explicit", "none"), fn_src=False,
